@@ -2,6 +2,7 @@ import CprocVerif.Model.Init
 import CprocVerif.Spec.Image
 import CprocVerif.Spec.InitRef
 import CprocVerif.Spec.InitClass
+import CprocVerif.Model.InitAuto
 
 /-! Line-protocol driver for property C07 (model of `init.c` / `qbe.c:emitdata`, and the spec).
 
@@ -24,6 +25,9 @@ Ops
 * `parse <inc> T N`  → `ok <size> <anon> <hyp> | <writes> | <cursor list> | <head list>` (hyp: the hypotheses of `emitdata_image_ev` hold) / `error <msg>` / `undef <msg>`
 * `full <inc> T N`   → `ok <size> | <image>` / `error …` / `undef …` / `emit-error`
 * `spec <inc> T N`   → `ok <size> <nswitch> <nreinit> | <writes> | <image>` / `error <msg>`
+* `auto <inc> T N`   → `ok <size> | <memory>`: the bytes of the automatic object after the model of `funcinit`
+                      (memory 0xa5 before) / `error …`
+* `imgclass <inc> T N` → is the pair in the class of `static_image_correct`: `yes` / `no:<first failing hypothesis>`
 * `class <inc> T N`  → is the pair in the class of `parseinit_refines_ref` (`Props/C07.lean`): `braced` / `elided`
                       (no designators; fully braced, resp. with brace elision), `desig` (with designators), or
                       `none:<first failing hypothesis>` (`tywf`, `top`, `switch`)
@@ -240,6 +244,25 @@ def step (line : String) : String :=
       else if !refClass ty inc ini then "none:other"
       else if !noDesig ini then "desig"
       else if fullyBraced ty ini then "braced" else "elided"
+    | none => "bad-op"
+  | ["auto", inc, t, n] =>
+    match parseTyIni inc t n with
+    | some (inc, ty, ini) =>
+      match parseinit ty inc ini with
+      | .ok st =>
+        s!"ok {st.top} | " ++ showImage (CprocVerif.InitAuto.funcinit st.top (List.replicate st.top (.byte 0xa5)) st.il.toList)
+      | .error e => showErr e
+    | none => "bad-op"
+  | ["imgclass", inc, t, n] =>
+    match parseTyIni inc t n with
+    | some (inc, ty, ini) =>
+      if !refClass ty inc ini then "no:refclass"
+      else if inc then "no:inc"
+      else if !layOK ty then "no:layout"
+      else if !(noUnion ty || noDesig ini) then "no:union+desig"
+      else if !strsOK ini then "no:strwidth"
+      else if !constVals ty inc ini then "no:nonconst"
+      else if imgClass ty inc ini then "yes" else "no:other"
     | none => "bad-op"
   | _ => "bad-op"
 
